@@ -107,6 +107,8 @@ M2 = [
   [('Instance', 'is_unique', 'method')], 'true-iff-instantiated-once-or-leaf', 'uniq'),
  ('flat-public-twin-and-for-or', 'spydrnet/ir/instance.py', 'elif len(self._reference._children) > 0 or len(self._reference._cables) > 0:', 'elif len(self._reference._children) > 0 and len(self._reference._cables) > 0:',
   [('Instance', 'is_leaf', 'method')], 'true-iff-has-a-definition-without-children-and-cables', 'flat'),
+ ('ecomposer-scalar-threshold', 'spydrnet/ir/bundle.py', '        if _items and len(_items) > 1:\n            return False', '        if _items and len(_items) > 2:\n            return False',
+  [('Port', 'is_scalar', 'getter')], 'scalar-iff-one-bit-at-most-and-flag-says-so', 'ecomposer'),
  ('loop-guard-undeclared-store', 'spydrnet/ir/cable.py', '        for _ in range(wire_count):\n            self.create_wire()', '        for _ in range(wire_count):\n            self.create_wire()\n            self._is_scalar = False',
   [('Cable', 'create_wires', 'method')], 'DEGRADED', 'ir'),
  ('benign-ns-local-rename', 'spydrnet/plugins/namespace_manager/__init__.py', 'parent_namespace', 'policy_of_parent', [('NamespaceManager', 'add', 'method')], None, 'ns'),
